@@ -222,6 +222,12 @@ def compare(ctx, case, r, m):
 
 
 def shrink(case):
+    if case.get("aux") == "sea":
+        if case["nsamp"] > 1:
+            yield dict(case, nsamp=1)
+        if case.get("mirror"):
+            yield dict(case, mirror=False)
+        return
     if "aux" in case:
         if case["n"] > 1:
             m = case["n"] - 1
@@ -264,6 +270,7 @@ def run(ctx):
         (aux if "aux" in c else cases).append(c)
     # per-class rules outside the Lean model (VariableCovarianceGaussianEnergy, StandardHamiltonian): oracle on the real code
     aux += AUX.gen(ctx.rng, ctx.n(60, 600))
+    aux += AUX.gen_sea(ctx.rng, ctx.n(12, 120))
     for c in aux:
         ctx.stat("aux:" + c["aux"])
         ctx.case(c, nontrivial=True)
